@@ -595,7 +595,7 @@ func Run(id, tier string) int {
 			a = newShardOut()
 		}
 		st := spaceStat{Name: sp.Name, Size: sp.Size, Evals: a.Evals, Nontrivial: a.Nontrivial, Skipped: a.Skipped,
-			States: a.States, Trans: a.Trans, Outcomes: len(a.Outcomes), Exhaustive: a.Evals >= sp.Size, WallS: round2(time.Since(t0).Seconds()), Extra: a.Extra}
+			States: a.States, Trans: a.Trans, Outcomes: len(a.Outcomes), Exhaustive: a.Evals >= sp.Size && a.Extra["scenarios_capped"] == 0 && a.Extra["unconfirmed_hangs"] == 0, WallS: round2(time.Since(t0).Seconds()), Extra: a.Extra}
 		if len(a.Samples) > 0 {
 			st.Sample = a.Samples[0]
 		}
